@@ -13,7 +13,7 @@ Adv == {0, 1, WordOfBytes(<<211, 211, 211, 211>>), WordOfBytes(<<34, 34, 34, 34>
 Init == \E junk \in [IW..(IW + NW - 1) -> Adv], pc0 \in {0} \cup {4 * w : w \in IW..(IW + NW - 1)}, a0 \in 0..3, b0 \in {0, 2}, o0 \in {0, 16} :
           s = PowerOn(Img, pc0, a0, b0, o0, junk)
 Next == ~s.fin /\ s.t < MaxTime /\ s' = Tick(s, NoInput)
-Spec == Init /\ [][Next]_s
+Spec == Init /\ [][Next]_s /\ WF_s(Next)
 
 ImageIntact(m) == \A w \in 0..(IW - 1) : Rd(m, w) = Img[w]
 \* until reset has put the processor into its start state nothing is serviced, stored into the image or output
